@@ -335,7 +335,8 @@ fn gen_demux(rng: &mut Rng, big: bool, stats: &mut Stats) -> Vec<Phase> {
         let n = if big && k == 0 { 256 } else { *rng.pick(&[1usize, 2, 3, 5, 8, 16, 40]) };
         let mut ids = vec![];
         for _ in 0..n {
-            let pool: Vec<u16> = inflight_ids.iter().chain(ids.iter()).cloned().collect();
+            // ids in flight, ids of this phase, and (re-use) ids of waiters already finished
+            let pool: Vec<u16> = inflight_ids.iter().chain(ids.iter()).chain(all_ids.iter()).cloned().collect();
             let id = if collide && !pool.is_empty() && rng.chance(1, 6) {
                 *rng.pick(&pool)
             } else if rng.chance(1, 8) {
@@ -370,6 +371,19 @@ fn gen_demux(rng: &mut Rng, big: bool, stats: &mut Stats) -> Vec<Phase> {
             if rng.chance(1, 5) {
                 replies.push(g); // duplicate, same phase
                 stats.bump("demux.duplicated-reply");
+            }
+        }
+        // stale replies: the upstream repeats the reply to a waiter that is already finished,
+        // possibly after its id has been taken again (must be dropped, not handed to the new owner)
+        if collide && total > n {
+            let finished: Vec<usize> = (0..total - n).filter(|g| !pending.contains(g)).collect();
+            for _ in 0..rng.below(4) {
+                if !finished.is_empty() {
+                    let g = *rng.pick(&finished);
+                    let at = rng.below(replies.len() as u64 + 1) as usize;
+                    replies.insert(at, g);
+                    stats.bump("demux.stale-reply-for-finished-waiter");
+                }
             }
         }
         // a close needs at least one waiter still pending (so its effect is observable), except at the end
@@ -581,6 +595,7 @@ async fn client(
         }
     } else {
         let mut counted = false;
+        let need = if q.proto == 3 { 2 } else { 1 };
         let conn = TcpStream::connect(tcp_t).await;
         wave.ready.fetch_add(1, Ordering::SeqCst);
         let mut go = wave.go.clone();
@@ -595,7 +610,7 @@ async fn client(
                 tokio::time::sleep(Duration::from_millis(60)).await;
                 let _ = s.write_all(&b[1..]).await;
             } else if q.proto == 3 {
-                // two queries on one connection (only through the corpus: known finding class 2)
+                // two queries on one connection: two responses are due
                 let mut bb = b.clone();
                 bb.extend(&b);
                 let _ = s.write_all(&bb).await;
@@ -611,7 +626,7 @@ async fn client(
                         let mut m = vec![0u8; u16::from_be_bytes(lb) as usize];
                         if s.read_exact(&mut m).await.is_err() { break; }
                         note(&mut o, n, id, &m, srcok);
-                        if o.nresp == 1 { counted = true; done.fetch_add(1, Ordering::SeqCst); }
+                        if o.nresp == need { counted = true; done.fetch_add(1, Ordering::SeqCst); }
                     }
                     _ = end.changed() => break,
                 }
@@ -727,10 +742,11 @@ fn gen_batch(rng: &mut Rng, nq: usize, t0: u64, stats: &mut Stats) -> Vec<Q> {
     let mut qs = vec![];
     for i in 0..nq {
         let lst = if i < 5 { i as u64 } else { rng.below(5) };
-        let proto = match rng.below(10) {
-            0..=6 => 0,
-            7 | 8 => 1,
-            _ => 2,
+        let proto = match rng.below(20) {
+            0..=13 => 0,
+            14..=16 => 1,
+            17 | 18 => 2,
+            _ => 3,
         };
         // all 16 drop masks; bits above the 4th must be irrelevant
         let mask = if rng.chance(1, 10) { rng.below(256) } else { rng.below(16) };
